@@ -42,6 +42,9 @@ type Case struct {
 	Final    int      `json:"final"`
 	FinalMsg string   `json:"final_msg,omitempty"`
 
+	EchoMode  string `json:"echo_mode,omitempty"`  // "" same | long | short
+	EchoEvery int    `json:"echo_every,omitempty"` // reply after every k-th message
+	Interfere bool   `json:"interfere,omitempty"`  // unrelated request between receive and reply
 	// StopAfter > 0: the handler ends the call after that many messages.
 	StopAfter int `json:"stop_after,omitempty"`
 
@@ -61,11 +64,13 @@ func (c *Case) codecName() string {
 	return n
 }
 
+func (c *Case) isUpload() bool { return c.Shape == "upload" || c.Shape == "upbidi" }
+
 func (c *Case) prefix() string { return c.T + "/" + c.codecName() }
 
 func (c *Case) clientStreams() bool {
 	switch c.Shape {
-	case "cs", "bidi", "bidinb", "upload":
+	case "cs", "bidi", "bidinb", "upload", "upbidi":
 		return true
 	}
 	return false
@@ -73,7 +78,7 @@ func (c *Case) clientStreams() bool {
 
 func (c *Case) serverStreams() bool {
 	switch c.Shape {
-	case "ss", "ssget", "bidi", "bidinb", "download":
+	case "ss", "ssget", "bidi", "bidinb", "download", "upbidi":
 		return true
 	}
 	return false
@@ -91,6 +96,8 @@ func (c *Case) method() string {
 		return "BidiNB"
 	case "upload":
 		return "Upload"
+	case "upbidi":
+		return "UpEcho"
 	case "download":
 		return "Download"
 	}
@@ -109,7 +116,7 @@ func (c *Case) outDesc() protoreflect.MessageDescriptor {
 
 func (c *Case) inDesc() protoreflect.MessageDescriptor {
 	switch c.Shape {
-	case "upload":
+	case "upload", "upbidi":
 		return uploadDesc()
 	case "download":
 		return vschema.Msg("vf.Req")
@@ -130,6 +137,8 @@ func (c *Case) httpPath() string {
 		return "/bidi"
 	case "upload":
 		return "/upload/f1"
+	case "upbidi":
+		return "/upecho/f1"
 	case "download":
 		return "/download/d1"
 	}
@@ -156,11 +165,12 @@ func (c *Case) contentType() string {
 
 func (c *Case) script() script {
 	maxRecv := len(c.Msgs) + 4
-	if c.Shape == "upload" && len(c.Msgs) > 0 {
+	if c.isUpload() && len(c.Msgs) > 0 {
 		maxRecv = len(c.Msgs[0]) + 4 // chunks may be of any non-zero size
 	}
 	return script{Echo: c.Echo, Reply: c.Reply, Final: c.Final, FinalMsg: c.FinalMsg,
-		Reader: c.Codec == "httpbody-reader", Writer: c.Codec == "httpbody-writer", MaxRecv: maxRecv, StopAfter: c.StopAfter}
+		Reader: c.Codec == "httpbody-reader", Writer: c.Codec == "httpbody-writer", MaxRecv: maxRecv, StopAfter: c.StopAfter,
+		EchoMode: c.EchoMode, EchoEvery: c.EchoEvery, Interfere: c.Interfere, Limit: c.Limit}
 }
 
 // wantMsgs is the message sequence the handler is meant to receive.
@@ -220,7 +230,7 @@ func (c *Case) expectation() expect {
 		force = t%4 != 0
 		t = t / 4 * 3
 	}
-	if c.Shape == "upload" {
+	if c.isUpload() {
 		// raw bytes: no message structure; only an abort is an error
 		if c.TruncErr {
 			return expect{class: "abort", mustErr: true}
@@ -305,6 +315,9 @@ func (c *Case) inprocRequest(id string) *http.Request {
 			hdr.Set("Accept", c.contentType())
 			hdr.Del("Content-Type")
 			return wire.NewRequest("GET", c.httpPath(), "", hdr, nil, 0)
+		}
+		if c.Shape == "upbidi" {
+			hdr.Set("Accept", "application/json")
 		}
 		return wire.NewRequest("POST", c.httpPath(), "", hdr, rd, -1)
 	case "grpc":
@@ -557,7 +570,7 @@ func (e *env) judge(c *Case, s snapshot, co *cobs, clientSaw bool) (vs []viol, o
 		if s.rawErr != io.EOF {
 			add("no-eof", "passthrough", fmt.Sprintf("AsHTTPBodyReader ended with %v, want io.EOF", s.rawErr))
 		}
-	case c.Shape == "upload":
+	case c.isUpload():
 		upload := c.sentBody()
 		if c.CE != "" {
 			upload = c.Msgs[0] // the body is the encoded form
